@@ -188,4 +188,9 @@ impl<E: OnEvictCallback + Clone, S: BuildHasher + Clone> Subject for LruSubj<E, 
         out.push(ok as i128);
         out
     }
+    fn weak_audit(&self, limit: usize) -> Ints {
+        let mut out = vec![];
+        weak_audit_list(&self.c, limit, &mut out);
+        out
+    }
 }
